@@ -11,11 +11,10 @@ KEEP = []  # RecordTensor only weak-references its owner
 CLS = ["DeltaCurrent", "DeltaPlusCurrent", "SingleExponentialCurrent", "DoubleExponentialCurrent"]
 
 
-def build(case, inplace):
+def ctor_kwargs(case, inplace):
     k = case["cls"]
-    kw = dict(spike_charge=case["Q"], delay=case["delay"], interp_tol=case["tol"],
-              current_overbound=case["cur_ob"], spike_overbound=case["spk_ob"],
-              batch_size=case["batch"], inplace=inplace)
+    kw = dict(spike_charge=case["Q"], interp_tol=case["tol"],
+              current_overbound=case["cur_ob"], spike_overbound=case["spk_ob"], inplace=inplace)
     mode = ["previous", "nearest"][case["mode"]]
     if k in (0, 1):
         kw["interp_mode"] = mode
@@ -26,9 +25,36 @@ def build(case, inplace):
     if k == 3:
         kw["tc_decay"] = case["tau"]
         kw["tc_rise"] = case["tr"]
-    s = getattr(neural, CLS[k])(tuple(case["shape"]), case["dt"], **kw)
+    return kw
+
+
+def build(case, inplace):
+    """the synapse, built directly / through Class.partialconstructor(...) / by a connection's constructor from the
+    partial constructor (how layers build them); returns (synapse, connection or None)"""
+    cls = getattr(neural, CLS[case["cls"]])
+    kw = ctor_kwargs(case, inplace)
+    how = case.get("build", "direct")
+    conn = None
+    if how == "direct":
+        s = cls(tuple(case["shape"]), case["dt"], delay=case["delay"], batch_size=case["batch"], **kw)
+    elif how == "partial":
+        s = cls.partialconstructor(**kw)(tuple(case["shape"]), case["dt"], case["delay"], case["batch"])
+    else:
+        conn = neural.LinearDense(tuple(case["shape"]), (2,), case["dt"], synapse=cls.partialconstructor(**kw),
+                                  delay=(case["delay"] if case["delay"] > 0 else None), batch_size=case["batch"])
+        s = conn.synapse
+        KEEP.append(conn)
     KEEP.append(s)
-    return s
+    return s, conn
+
+
+def report(s, k):
+    """what the synapse reports about its configuration"""
+    return [float(s.dt), float(s.delay), bool(s.inplace), int(s.batchsz), [int(x) for x in s.shape],
+            float(s.spike_charge),
+            float(s.time_constant) if k == 2 else (float(s.tc_decay) if k == 3 else None),
+            float(s.tc_rise) if k == 3 else None,
+            int(s.spike_.recordsz)]
 
 
 def enc_f(t):
@@ -66,9 +92,37 @@ def tensor_in(case, shape, vals):
     return torch.tensor([bool(v) for v in vals], dtype=torch.bool).reshape(shape)
 
 
-def apply(s, case, op):
+def apply(s, conn, case, op, flip=False):
     k = op[0]
-    full = [case["batch"]] + list(case["shape"])
+    if k.startswith("set_"):
+        v = op[1]
+        if k == "set_inplace":
+            v = bool(v) != flip
+        if k == "set_dt":
+            if conn is not None:
+                conn.dt = v          # Connection.dt forwards to the synapse
+            else:
+                s.dt = v
+        elif k == "set_delay":
+            s.delay = v
+        elif k == "set_inplace":
+            s.inplace = v
+        elif k == "set_batch":
+            s.batchsz = v
+        elif k == "set_Q":
+            s.spike_charge = float(v)
+        elif k == "set_tau":
+            if case["cls"] == 2:
+                s.time_constant = float(v)
+            else:
+                s.tc_decay = float(v)
+        elif k == "set_tr":
+            s.tc_rise = float(v)
+        else:
+            raise AssertionError(k)
+        r = report(s, case["cls"])
+        r[2] = r[2] != flip
+        return [4, r]
     if k == "step":
         x = tensor_in(case, op[1], op[2])
         inj = [torch.tensor(i, dtype=torch.float64).reshape(op[1]) for i in op[3]]
@@ -97,12 +151,14 @@ def apply(s, case, op):
     raise AssertionError(k)
 
 
-def run_one(case, inplace):
-    s = build(case, inplace)
-    tr = [[s.spike_.recordsz]]
+def run_one(case, flip):
+    s, conn = build(case, bool(case["inplace"]) != flip)
+    r0 = report(s, case["cls"])
+    r0[2] = r0[2] != flip
+    tr = [[s.spike_.recordsz, r0]]
     for op in case["ops"]:
         try:
-            out = [0, apply(s, case, op)]
+            out = [0, apply(s, conn, case, op, flip)]
         except Exception as e:  # noqa
             c = exc_code(e)
             out = [1, c] if c != 9 else [1, 9, f"{type(e).__name__}: {e}"[:200]]
@@ -111,8 +167,8 @@ def run_one(case, inplace):
 
 
 def run_case(case):
-    own = run_one(case, bool(case["inplace"]))
-    twin = run_one(case, not bool(case["inplace"]))
+    own = run_one(case, False)
+    twin = run_one(case, True)
     return {"own": own, "twin": twin}
 
 
